@@ -152,9 +152,18 @@ func registerStubs(it *Interp) {
 		return nil
 	}
 	s["(*strings.Builder).Grow"] = func(it *Interp, fr *frame, cc *ssa.CallCommon, a []Value) Value { return nil }
-	s["math.Ceil"] = func(it *Interp, fr *frame, cc *ssa.CallCommon, a []Value) Value { return it.St.FUn(OFCeil, a[0].(*Term)) }
-	s["math.Floor"] = func(it *Interp, fr *frame, cc *ssa.CallCommon, a []Value) Value { return it.St.FUn(OFFloor, a[0].(*Term)) }
-	s["math.Trunc"] = func(it *Interp, fr *frame, cc *ssa.CallCommon, a []Value) Value { return it.St.FUn(OFTrunc, a[0].(*Term)) }
+	s["math.Ceil"] = func(it *Interp, fr *frame, cc *ssa.CallCommon, a []Value) Value {
+		it.fpForce(a[0].(*Term))
+		return it.St.FUn(OFCeil, a[0].(*Term))
+	}
+	s["math.Floor"] = func(it *Interp, fr *frame, cc *ssa.CallCommon, a []Value) Value {
+		it.fpForce(a[0].(*Term))
+		return it.St.FUn(OFFloor, a[0].(*Term))
+	}
+	s["math.Trunc"] = func(it *Interp, fr *frame, cc *ssa.CallCommon, a []Value) Value {
+		it.fpForce(a[0].(*Term))
+		return it.St.FUn(OFTrunc, a[0].(*Term))
+	}
 	s["internal/race.Enabled"] = stubZeroResults
 	s["runtime.KeepAlive"] = stubNoop2
 	registerMoreStubs(it)
